@@ -33,6 +33,14 @@ theorem C09_no_result_glob :
     ∀ op ∈ fileOps, (op.kind == "glob" || op.kind == "glob-sorted") = true →
       (op.file, op.func) ∈ allowedGlob := by decide
 
+/-- **No result depends on probing the directory** (`exists`, `is_file`, `listdir`, `iterdir`,
+`stat` …): whether a file of a given name happens to be present is state left by earlier runs;
+the code base has no such call, and a new one must be justified here. -/
+def allowedProbe : List (String × String) := []
+
+theorem C09_no_fs_probe :
+    ∀ op ∈ fileOps, op.kind = "probe" → (op.file, op.func) ∈ allowedProbe := by decide
+
 /-- the only place that replaces a user file by another file is the CLI verify step, and the
 file moved there is opened with mode "w" (truncating) in the same function -/
 theorem C09_move_source_truncated :
